@@ -12,6 +12,7 @@ import (
 	"os"
 	"os/exec"
 	"path/filepath"
+	"regexp"
 	"strconv"
 	"strings"
 	"time"
@@ -30,6 +31,8 @@ import (
 // whenever the trip-count expression evaluates to a number it must equal the body count.
 
 func init() { register("loops", suiteLoops) }
+
+var addRecRe = regexp.MustCompile(`\{(-?\d+), \+, (-?\d+)\}`)
 
 type loopSpec struct {
 	Name    string
@@ -90,6 +93,9 @@ func (l loopSpec) sources() (plain, twin string) {
 		// twin: continue must still step
 		extraTw := ind + "\tbodies++\n" + ind + "\tif i&1 == 1 {\n" + ind + "\t\t" + l.stepStmt() + "\n" + ind + "\t\tcontinue\n" + ind + "\t}\n"
 		fmt.Fprintf(&tw, "%si := %s\n%sfor {\n%s%s\thdr = append(hdr, i)\n%s\tif %s {\n%s\t\tbreak\n%s\t}\n%s%s\tt += i\n%s\t%s\n%s}\n", ind, l.Start, ind, guard, ind, ind, ncond, ind, ind, extraTw, ind, ind, l.stepStmt(), ind)
+	case "geometric":
+		fmt.Fprintf(&pl, "%sfor i := %s; %s; i *= %d {\n%s%s}\n", ind, l.Start, cond, l.Step, body, ind)
+		fmt.Fprintf(&tw, "%si := %s\n%sfor {\n%s%s\thdr = append(hdr, i)\n%s\tif %s {\n%s\t\tbreak\n%s\t}\n%s%s\ti *= %d\n%s}\n", ind, l.Start, ind, guard, ind, ind, ncond, ind, ind, bodyTw, ind, l.Step, ind)
 	default: // cond-update: the variable is not stepped on every path
 		upd := ind + "\tif t&1 == 0 {\n" + ind + "\t\t" + l.stepStmt() + "\n" + ind + "\t} else {\n" + ind + "\t\t" + l.stepStmt() + "\n" + ind + "\t\t" + l.stepStmt() + "\n" + ind + "\t}\n"
 		fmt.Fprintf(&pl, "%si := %s\n%sfor %s {\n%s%s%s}\n", ind, l.Start, ind, cond, body, upd, ind)
@@ -132,6 +138,11 @@ func genLoopSpec(r *Rng, idx int) loopSpec {
 	l.Form = pick(r, []string{"top", "top", "top", "breaktest", "breaktest", "bottom", "top-with-break", "top-with-continue", "cond-update"})
 	l.Nested = r.Chance(25)
 	l.Sibling = r.Chance(20)
+	if r.Chance(7) {
+		// multiplicative update: NOT a start + k*step variable; no summary of that shape may appear
+		l.Form, l.Start, l.Step = "geometric", pick(r, []string{"1", "2", "3"}), pick(r, []int{2, 3})
+		l.Cmp, l.Limit = pick(r, []string{"<", "<="}), pick(r, []string{"b", "40", "100"})
+	}
 	return l
 }
 
@@ -191,7 +202,7 @@ func evalSCEV(s loop.SCEV, env map[ssa.Value]*big.Int) (*big.Int, bool) {
 }
 
 func suiteLoops(c *Ctx) error {
-	c.Res.Rule = "generated counted loops (up/down; tests < <= > >= !=; steps 1,2,3,5 and negative; constant and parameter bounds; forms: top-tested, break-tested `for { if !(test) { break }; …}`, bottom-tested, with an extra break, with continue, with a conditionally doubled update; optionally nested in an outer loop, optionally after a sibling loop with the same start and step) x 12 argument vectors; the real loop analysis of the plain function vs a natively executed instrumented twin recording the header values and body count; checked only where the analysis makes a claim (basic induction variable / evaluable trip count); non-trivial = the analysis made at least one claim and the loop ran at least once; distinct by (loop, arguments)"
+	c.Res.Rule = "generated counted loops (up/down; tests < <= > >= !=; steps 1,2,3,5 and negative; constant and parameter bounds; forms: top-tested, break-tested `for { if !(test) { break }; …}`, bottom-tested, with an extra break, with continue, with a conditionally doubled update, with a multiplicative update; optionally nested in an outer loop, optionally after a sibling loop with the same start and step) x 12 argument vectors; the real loop analysis of the plain function vs a natively executed instrumented twin recording the header values and body count; checked only where the analysis makes a claim (basic induction variable / evaluable trip count); non-trivial = the analysis made at least one claim and the loop ran at least once; distinct by (loop, arguments)"
 	n := c.N
 	if n == 0 {
 		n = 120
@@ -345,6 +356,26 @@ func suiteLoops(c *Ctx) error {
 						c.Violate("C12", "C12/induction-variable-closed-form-wrong:"+l.Form, fmt.Sprintf("%s(a=%d,b=%d): the analysis says i = %s + k*%s but the %d-th header value is %d", l.Name, ab[0], ab[1], s0, st, k, v), rp)
 						break
 					}
+				}
+			}
+			// the canonical IR itself: a recurrence {S, +, T} whose constant start is the literal start of `i`
+			// claims i = S + k*T; the recorded header values must agree (whatever loop.Inductions says)
+			if s0, err := strconv.ParseInt(l.Start, 10, 64); err == nil && len(ob.hdr) > 1 && !((l.Nested || l.Sibling) && s0 == 0) {
+				for _, m := range addRecRe.FindAllStringSubmatch(irOf[l.Name], -1) {
+					S, _ := strconv.ParseInt(m[1], 10, 64)
+					T, _ := strconv.ParseInt(m[2], 10, 64)
+					if S != s0 {
+						continue
+					}
+					claimed = true
+					for k, v := range ob.hdr {
+						if v != S+int64(k)*T {
+							rp["recurrence_in_ir"] = m[0]
+							c.Violate("C12", "C12/ir-recurrence-contradicts-execution:"+l.Form, fmt.Sprintf("%s(a=%d,b=%d): the canonical IR contains %s for the variable starting at %d, but its %d-th header value is %d", l.Name, ab[0], ab[1], m[0], s0, k, v), rp)
+							break
+						}
+					}
+					break
 				}
 			}
 			if lp.TripCount != nil {
